@@ -21,6 +21,7 @@ type node struct {
 type tree struct {
 	nodes []*node
 	tip   int
+	desc  map[string][]byte // transaction id -> its (arbitrary) description bytes
 }
 
 func (t *tree) trunk() []int {
@@ -104,6 +105,10 @@ func checkAll(e *vkit.Env, t *tree, when string) {
 			if holder >= 0 {
 				tx, err := l.QueryTransaction([]byte(txid))
 				vrt.Assert(err == nil && string(tx.Blockid) == t.nodes[holder].id, "tx-maps-to-its-main-chain-block")
+				if d, ok := t.desc[txid]; ok && err == nil {
+					// the stored content is what was confirmed, whatever was reorganised in between
+					vrt.Assert(string(tx.Desc) == string(d), "tx-content-is-what-was-confirmed")
+				}
 			}
 		}
 	}
@@ -155,7 +160,7 @@ func checkPaths(e *vkit.Env, t *tree) {
 // block; each carries a coinbase and optionally a shared transaction.
 func run(N int, truncate bool) {
 	e := vkit.NewEnv("c04", vkit.Genesis("0", "100", "50"), nil)
-	t := &tree{}
+	t := &tree{desc: map[string][]byte{}}
 	t.nodes = append(t.nodes, &node{id: string(e.Root.Blockid), parent: -1, height: 0, txs: []string{string(e.RootTx.Txid)}, blk: e.Root})
 	checkAll(e, t, "genesis")
 	shared := &pb.Transaction{Txid: []byte("shared-tx"), Version: 1, Desc: []byte("s")}
@@ -163,6 +168,8 @@ func run(N int, truncate bool) {
 		p := vrt.Choice("parent", len(t.nodes))
 		withShared := vrt.Choice("shared", 2) == 1
 		cb := vkit.Coinbase("cb"+string([]byte{byte('0' + i)}), "M", []byte{7})
+		cb.Desc = vrt.Bytes("desc", 2) // arbitrary content
+		t.desc[string(cb.Txid)] = cb.Desc
 		txs := []*pb.Transaction{cb}
 		ids := []string{string(cb.Txid)}
 		if withShared {
